@@ -71,10 +71,6 @@ def evaluate(lines):
 
 
 def classify(lines, f):
-    if (f['sig'] == 'text-altered' and inert.has_legacy_prefix_entity(lines)
-            and f.get('observed') == inert.expected_html_with_legacy_prefix_decoding(lines)):
-        # symptom: exactly the legacy prefix entity is decoded and nothing else differs
-        return 'KF-C14-legacy-entity-prefix'
     return None
 
 
